@@ -126,6 +126,24 @@ def cases(tier, seed):
     d.update({"fields": ["temp", "density", "Z"], "layout": [scope.scattered_layout(27, 5), scope.scattered_layout(20, 3)], "payload": "coded",
               "time": times[2], "seed": seed})
     out.append({"desc": d, "full": False, "maxlist": 2, "boxes_only": True, "devlevel": 0, "w": 40, "many": True})
+    # binary file numbers of different widths (Cell_D_99999 next to Cell_D_100000; Cell_D_10000 next to Cell_D_100000)
+    for nd in (2, 3):
+        m = scope.named_meshes(nd)[2]
+        for first in (0, 1):
+            d = dict(m)
+            d.update(geos[nd][first])
+            La, Lb = scope.layouts(len(m["levels"][0]), 'idrev'), scope.layouts(len(m["levels"][1]), 'idrev')
+            d.update({"fields": ["temp", "density", "Z"], "payload": "coded", "time": times[first], "seed": seed,
+                      "layout": [scope.wide_numbers(La[-1 - first], first), scope.wide_numbers(Lb[len(Lb) // 2], 1 - first), None]})
+            out.append({"desc": d, "full": False, "maxlist": 2, "boxes_only": False, "devlevel": None, "w": 12, "wide_numbers": True})
+    # twelve levels (Level_10 and Level_11: two-digit level numbers sort before Level_2 as text)
+    from .c02 import chain_mesh
+    for nd in (2, 3):
+        m = chain_mesh(nd, 12)
+        d = dict(m)
+        d.update(geos[nd][1])
+        d.update({"fields": ["temp", "density", "Z"], "layout": [None, scope.layouts(2, 'idrev')[-1]] + [None] * 10, "payload": "coded", "time": times[2], "seed": seed})
+        out.append({"desc": d, "full": False, "maxlist": 2, "boxes_only": False, "devlevel": None, "w": 30, "twelve_levels": True})
     # 131 + 65 binary files on a level (one box per file): more files than any batching threshold
     m = scope.many_file_mesh()
     d = dict(m)
